@@ -53,9 +53,9 @@ FAMS = {"closed": (heavy.NodeSample.closed_linspace, heavy.IntegratorArray.close
         "chebyshev": (heavy.NodeSample.chebyshev, heavy.IntegratorArray.chebyshev),
         "gauss": (heavy.NodeSample.gauss_legendre, heavy.IntegratorArray.gauss_legendre)}
 out = []
-for fam, n in json.loads(sys.argv[1]):
+for fam, n, first in json.loads(sys.argv[1]):
     nf, wf = FAMS[fam]
-    if fam in ("closed", "open"):
+    if first == "w":
         ws = wf(n); xs = nf(n)       # weights first: fills the memo before the nodes are asked
     else:
         xs = nf(n); ws = wf(n)
@@ -97,7 +97,7 @@ def run_case(ctx, case):
         return
     if kind == "order":
         import subprocess
-        reqs = [(f, int(n)) for f, n in c["reqs"]]
+        reqs = [(q[0], int(q[1]), (q[2] if len(q) > 2 else ("w" if q[0] in ("closed", "open") else "n"))) for q in c["reqs"]]
         rec.case(case, nontrivial=True)
         p = subprocess.run(["/venv/bin/python", "-c", SUBPROC % REPO_SRC, json.dumps(reqs)], stdout=subprocess.PIPE,
                            stderr=subprocess.PIPE, text=True, timeout=300)
@@ -106,13 +106,14 @@ def run_case(ctx, case):
             return
         outs = json.loads(p.stdout)
         drv.call("quad.reset")
-        for (fam, n), (xs, ws) in zip(reqs, outs):
+        for (fam, n, first), (xs, ws) in zip(reqs, outs):
             xs, ws = [F(x) for x in xs], [F(w) for w in ws]
             l3(rec, "moments-after-history")
             before = len(rec.violations)
             check_rule(rec, case, fam, n, xs, ws)
             if len(rec.violations) > before:
-                rec.violations[-1]["what"] += " (after earlier requests %s)" % (reqs[: reqs.index((fam, n))],)
+                rec.violations[-1]["what"] += " (%s first, after earlier requests %s)" % (
+                    "weights" if first == "w" else "nodes", reqs[: reqs.index((fam, n, first))],)
                 return
             if fam in ("closed", "open"):
                 m = drv.call("quad.rule", 1 if fam == "closed" else 0, n)
@@ -205,7 +206,7 @@ def run(ctx):
         for n in range(lo, nmax + 1):
             run_case(ctx, ser(dict(kind="rule", fam=fam, n=n)))
     for i in range(budget(ctx, 6, 40)):
-        reqs = [(rng.choice(list(FAMS)), rng.randint(2, 9)) for _ in range(rng.randint(4, 10))]
+        reqs = [(rng.choice(list(FAMS)), rng.randint(2, 9), rng.choice(["w", "n"])) for _ in range(rng.randint(4, 10))]
         run_case(ctx, ser(dict(kind="order", reqs=reqs)))
     # corpus: closed rule on float knots where start + (end - start) * 1.0 rounds above the last knot (repaired)
     run_case(ctx, ser(dict(kind="scalar", U=[F(-5, 3)] * 3 + [F(-41, 30)] * 2 + [F(4, 3)] * 3,
